@@ -291,6 +291,23 @@ fn jwk_rows() -> Vec<(String, Jwk, bool)> {
   rows.push(("ec-p256".into(), Jwk::from_params(e.clone()), true));
   e.d = Some(encode_b64([3u8; 32]));
   rows.push(("ec-p256-private".into(), Jwk::from_params(e), false));
+  // RSA: public, fully private, and every way of carrying only SOME private members
+  let n = encode_b64([0xc3u8; 256]);
+  let pubk = serde_json::json!({"kty": "RSA", "n": n, "e": "AQAB"});
+  rows.push(("rsa".into(), serde_json::from_value(pubk.clone()).unwrap(), true));
+  for (name, members) in [
+    ("rsa-d-only", vec!["d"]),
+    ("rsa-p-q", vec!["p", "q"]),
+    ("rsa-dq-only", vec!["dq"]),
+    ("rsa-all-but-qi", vec!["d", "p", "q", "dp", "dq"]),
+    ("rsa-private", vec!["d", "p", "q", "dp", "dq", "qi"]),
+  ] {
+    let mut v = pubk.clone();
+    for m in members {
+      v[m] = serde_json::json!(encode_b64([0x11u8; 64]));
+    }
+    rows.push((name.into(), serde_json::from_value(v).unwrap(), false));
+  }
   rows
 }
 
